@@ -903,6 +903,16 @@ func c04hRun(f []string) string {
 	}
 	u := func(s string) uint64 { v, err := strconv.ParseUint(s, 10, 64); must(err); return v }
 	switch {
+	case f[1] == "uiack" && len(f) == 3:
+		k := int(u(f[2]))
+		if k < 1 || k > 64 {
+			return "bad-op"
+		}
+		fr, ua, dup, pub, err := c04UIAck(k)
+		if err != nil {
+			return "uiack err"
+		}
+		return fmt.Sprintf("uiack frames %d unauth %d dupnonce %d pubkey %d", fr, ua, dup, pub)
 	case f[1] == "icmpkx" && len(f) == 4:
 		return c04IcmpKx(u(f[2]), unhexTok(f[3]))
 	case f[1] == "new" && len(f) == 4:
@@ -935,6 +945,9 @@ func c04hRun(f []string) string {
 func c04hGen(w interface{ WriteString(string) (int, error) }, r *rng, nPerKind int, faults bool) {
 	for i := 0; i < 2+nPerKind; i++ {
 		fmt.Fprintf(w.(io.Writer), "reset\nhs icmpkx %d %s\n", r.u64()>>uint(r.intn(64)), hex.EncodeToString(r.bytes(r.pick(0, 8, 56, 1400))))
+	}
+	if faults { // engine c04 only: the ingress side under a replayed UDP_OPEN_ACK, always for k = 1 and 3
+		fmt.Fprintf(w.(io.Writer), "reset\nhs uiack 1\nreset\nhs uiack 3\n")
 	}
 	kindNow := ""
 	pl := func() string {
@@ -1043,4 +1056,155 @@ func c04hGen(w interface{ WriteString(string) (int, error) }, r *rng, nPerKind i
 		}
 
 	}
+}
+
+// ------------------------------------------------------------------------------------------------
+// ingress side: a replayed UDP_OPEN_ACK
+
+type c04uiSink struct {
+	mu     sync.Mutex
+	opens  []*protocol.Frame
+	dgrams [][]byte // Data field of every UDP_DATAGRAM the peer received
+	ch     chan struct{}
+}
+
+func (k *c04uiSink) Write(p []byte) (int, error) {
+	f, err := protocol.NewFrameReader(bytes.NewReader(p)).Read()
+	if err != nil {
+		return len(p), nil
+	}
+	k.mu.Lock()
+	switch f.Type {
+	case protocol.FrameUDPOpen:
+		k.opens = append(k.opens, f)
+	case protocol.FrameUDPDatagram:
+		if d, err := protocol.DecodeUDPDatagram(f.Payload); err == nil {
+			k.dgrams = append(k.dgrams, append([]byte{}, d.Data...))
+		}
+	}
+	k.mu.Unlock()
+	select {
+	case k.ch <- struct{}{}:
+	default:
+	}
+	return len(p), nil
+}
+
+func (k *c04uiSink) wait(cond func() bool) bool {
+	for i := 0; i < 3000; i++ {
+		k.mu.Lock()
+		ok := cond()
+		k.mu.Unlock()
+		if ok {
+			return true
+		}
+		select {
+		case <-k.ch:
+		case <-time.After(10 * time.Millisecond):
+		}
+	}
+	return false
+}
+
+// c04UIAck: a real agent as SOCKS5-UDP ingress with one capturing peer; the harness plays the exit.
+// k datagrams, the SAME ack delivered again, k more datagrams.
+// returns frames seen, frames not under the exit's key, repeated 12-byte nonces, frames that open under
+// the key anybody can compute from a wiped (all-zero) ingress private key.
+func c04UIAck(k int) (frames, unauth, dup, pub int, err error) {
+	dir, err := os.MkdirTemp("", "verif-c04ui-")
+	if err != nil {
+		return
+	}
+	defer os.RemoveAll(dir)
+	cfg := config.Default()
+	cfg.Agent.DataDir = dir
+	cfg.Agent.LogLevel = "error"
+	a, err := agent.New(cfg)
+	if err != nil {
+		return
+	}
+	exitID, _ := identity.NewAgentID()
+	sink := &c04uiSink{ch: make(chan struct{}, 1)}
+	if err = agent.VerifC04IngressSetup(a, exitID, sink); err != nil {
+		return
+	}
+	base, err := a.CreateUDPAssociation(context.Background(), nil)
+	if err != nil {
+		return
+	}
+	dst := net.IPv4(10, 9, 8, 7).To4()
+	relay := func(i int) error {
+		return a.RelayUDPDatagram(base, &net.UDPAddr{IP: dst, Port: 53}, 53, protocol.AddrTypeIPv4, dst, []byte(fmt.Sprintf("verif-c04-datagram-%04d-payload", i)))
+	}
+	first := make(chan error, 1)
+	go func() { first <- relay(0) }() // blocks until the open is answered
+	if !sink.wait(func() bool { return len(sink.opens) > 0 }) {
+		return 0, 0, 0, 0, fmt.Errorf("no UDP_OPEN")
+	}
+	sink.mu.Lock()
+	of := sink.opens[0]
+	sink.mu.Unlock()
+	open, err := protocol.DecodeUDPOpen(of.Payload)
+	if err != nil {
+		return
+	}
+	privE, pubE, err := crypto.GenerateEphemeralKeypair()
+	if err != nil {
+		return
+	}
+	sec, err := crypto.ComputeECDH(privE, open.EphemeralPubKey)
+	if err != nil {
+		return
+	}
+	exitKey := crypto.DeriveSessionKey(sec, open.RequestID, open.EphemeralPubKey, pubE, false).Key()
+	// the key derivable by ANYBODY if the ingress re-derives from its wiped private key
+	var zeroPriv [32]byte
+	pubKeyOK := false
+	var pubKey [32]byte
+	if s2, e2 := crypto.ComputeECDH(zeroPriv, pubE); e2 == nil {
+		pubKey = crypto.DeriveSessionKey(s2, open.RequestID, open.EphemeralPubKey, pubE, true).Key()
+		pubKeyOK = true
+	}
+	ack := &protocol.Frame{Type: protocol.FrameUDPOpenAck, StreamID: of.StreamID, Payload: (&protocol.UDPOpenAck{RequestID: open.RequestID, BoundAddrType: protocol.AddrTypeIPv4, BoundAddr: []byte{127, 0, 0, 1}, BoundPort: 9, EphemeralPubKey: pubE}).Encode()}
+	agent.VerifC04Process(a, exitID, ack)
+	select {
+	case e := <-first:
+		if e != nil {
+			return 0, 0, 0, 0, e
+		}
+	case <-time.After(30 * time.Second):
+		return 0, 0, 0, 0, fmt.Errorf("first datagram never went out")
+	}
+	for i := 1; i < k; i++ {
+		if err = relay(i); err != nil {
+			return
+		}
+	}
+	agent.VerifC04Process(a, exitID, ack) // the same ack again
+	for i := 0; i < k; i++ {
+		if e := relay(k + i); e != nil {
+			break // an ingress that shuts the association on a replayed ack sends nothing more: fine
+		}
+	}
+	sink.wait(func() bool { return len(sink.dgrams) >= 2*k })
+	sink.mu.Lock()
+	defer sink.mu.Unlock()
+	seen := map[string]bool{}
+	for _, d := range sink.dgrams {
+		frames++
+		if c04hOpenWith(exitKey, d) == nil {
+			unauth++
+		}
+		if pubKeyOK && c04hOpenWith(pubKey, d) != nil {
+			pub++
+		}
+		if len(d) >= crypto.NonceSize {
+			n := string(d[:crypto.NonceSize])
+			if seen[n] {
+				dup++
+			}
+			seen[n] = true
+		}
+	}
+	return frames, unauth, dup, pub, nil
 }
